@@ -277,6 +277,22 @@ def judge_invocation(w, frame: Frame, context: List[Frame], exc: Optional[BaseEx
                             "invocation {} from {}: postconditions {} evaluated as {}".format(
                                 frame.callee_desc, detail["context"][-1:] or "<top>", want_post, roles.get("post", [])), case, detail)
                 return
+    if exempt_func and (roles.get("pre") or roles.get("post") or roles.get("snap")):
+        # the other half of the rule: a re-entrant call made while the function's own contracts are being evaluated IS skipped (this is
+        # what makes the evaluation terminate, and what lets a contract use the function it describes)
+        w.count("reentrant_invocations_found_checked")
+        w.violation("C10/re-entrant-call-checked", "invocation {} made from {} re-enters the function whose contracts are being evaluated in this very "
+                    "flow, yet its contracts were evaluated: {}".format(frame.callee_desc, detail["context"][-1:], frame.events), case, detail)
+        return
+    if obj is not None and exempt_obj:
+        w.count("must_skip_invariants_invocations")
+        if roles.get("inv"):
+            # a public method called while an invariant, the constructor or a public method of that very object is running in this
+            # very flow: the object may be in a transient state, which is why these calls are skipped
+            w.violation("C10/re-entrant-call-checked", "invocation {} made from {} is a re-entrant call on an object whose invariants / constructor / "
+                        "public method is running in this very flow, yet its invariants were evaluated: {}".format(
+                            frame.callee_desc, detail["context"][-1:], frame.events), case, detail)
+            return
     if obj is not None and not exempt_obj:
         w.count("must_check_invariants_invocations")
         invs = [i["id"] for i in model.invs_on(type(obj).__name__, "CALL")]
@@ -480,28 +496,45 @@ def execute_graph(w, graph_index, is_async, spec, model, scripts, budgets, probe
             return {(getattr(m, "flow", None), getattr(m, "target", m)) for m in (state or ()) if getattr(m, "active", True)}
 
         snapshot_before = live_marks()
-        # top-level calls
-        base_depth = len(inspect.stack(0))
-        old_limit = sys.getrecursionlimit()
-        sys.setrecursionlimit(base_depth + 300)
-        try:
-            for top in tops:
-                director.counts = {}
-                try:
-                    director.invoke(top, None)
-                except RecursionError as err:
-                    w.violation("C10/unbounded-recursion", "top-level call {} hit the recursion limit: {}".format(top, err), case)
-                    return
-                except probe.CustomBase:
-                    # breadth blow-up of a finite call tree (depth stayed below the recursion limit): not judged
-                    w.count("graphs_abandoned_event_budget")
-                    return
-                except BaseException as err:  # pylint: disable=broad-except
-                    if not truth:
-                        w.violation("C10/unexpected-exception", "top-level call {} raised {!r} although every contract holds".format(top, err), case)
-                        return
-        finally:
-            sys.setrecursionlimit(old_limit)
+        # top-level calls; every other asynchronous graph runs inside a task of a running event loop (the flow of a call is then
+        # (thread, task) for synchronous and asynchronous callables alike), the others outside of any loop
+        in_task = is_async and graph_index % 2 == 0
+
+        def run_tops() -> bool:
+            base_depth = len(inspect.stack(0))
+            old_limit = sys.getrecursionlimit()
+            sys.setrecursionlimit(base_depth + 300)
+            try:
+                for top in tops:
+                    director.counts = {}
+                    try:
+                        director.invoke(top, None)
+                    except RecursionError as err:
+                        w.violation("C10/unbounded-recursion", "top-level call {} hit the recursion limit: {}".format(top, err), case)
+                        return False
+                    except probe.CustomBase:
+                        # breadth blow-up of a finite call tree (depth stayed below the recursion limit): not judged
+                        w.count("graphs_abandoned_event_budget")
+                        return False
+                    except BaseException as err:  # pylint: disable=broad-except
+                        if not truth:
+                            w.violation("C10/unexpected-exception", "top-level call {} raised {!r} although every contract holds".format(top, err), case)
+                            return False
+            finally:
+                sys.setrecursionlimit(old_limit)
+            return True
+
+        if in_task:
+            import asyncio  # pylint: disable=import-outside-toplevel
+
+            async def in_a_task() -> bool:
+                return run_tops()
+
+            w.count("graphs_run_inside_a_task")
+            if not asyncio.run(in_a_task()):
+                return
+        elif not run_tops():
+            return
         w.count("probe_events", director.n_events)
         for frame, context, exc in director.done:
             judge_invocation(w, frame, context, exc, model, expect, probe_info, truth, case, graph_index)
